@@ -264,6 +264,10 @@ func newC16(r *simrun.Run) *c16 {
 	w.delayWeight = pick(t, []int{2, 1, 6})
 	w.maxOps = 8 + t.Choice(24)
 	w.maxFiles = 2 + t.Choice(4)
+	// Half of the runs also interleave between individual atomic operations
+	// (FUSE link counts, quota counters): simrewrite's AtomicPoint calls
+	// become scheduling points.
+	w.k.AtomicPoints = t.Bool(1, 2)
 
 	root, ha, nfs, symlinkFactory := newTree(useNFS, w.clock)
 	w.root, w.nfs = root, nfs
